@@ -1688,6 +1688,17 @@ namespace bloch::runtime {
         return false;
     }
 
+    // An object whose release can be observed: it resets qubits, records outcomes, or runs a user
+    // destructor. When that happens must not depend on when a collection runs.
+    static bool releaseIsObservable(const RuntimeClass* cls) {
+        if (ownsQubitsOrTracked(cls))
+            return true;
+        for (; cls; cls = cls->base)
+            if (cls->destructorDecl && cls->destructorDecl->body)
+                return true;
+        return false;
+    }
+
     void RuntimeEvaluator::runCycleCollector() {
         if (!m_gcRequested.load())
             return;
@@ -1743,9 +1754,13 @@ namespace bloch::runtime {
         // happens. For the same reason nothing from which such an object can be reached may be
         // swept - clearing the holder's fields would release the qubit owner on the spot.
         {
+            // The seeds are all such objects, reachable or not: garbage that refers to a *live* one
+            // is kept too - sweeping it would drop a reference to the live object, and whether it
+            // is later released by its last variable (destructor runs, qubits reset) or only found
+            // unreachable at the end would depend on when this collection ran.
             std::unordered_set<const Object*> pinned;
             for (auto& obj : objects)
-                if (!obj->marked && ownsQubitsOrTracked(obj->cls))
+                if (releaseIsObservable(obj->cls))
                     pinned.insert(obj.get());
             auto refersToPinned = [&](const Value& v) {
                 if (v.type == Value::Type::Object && v.objectValue)
@@ -1778,7 +1793,7 @@ namespace bloch::runtime {
         // Sweep unmarked non-tracked objects
         std::vector<std::shared_ptr<Object>> unreachable;
         for (auto& obj : objects) {
-            if (!obj->marked && obj->cls && !ownsQubitsOrTracked(obj->cls)) {
+            if (!obj->marked && obj->cls && !releaseIsObservable(obj->cls)) {
                 obj->skipDestructor = true;
                 unreachable.push_back(obj);
             }
